@@ -225,6 +225,7 @@ func c13Body(r *Run) {
 
 	// inside a running Router
 	rig := newRouterRig(r, 30*time.Second)
+	closeInFlight := false
 	var sub message.Subscriber
 	var script *ScriptedSubscriber
 	var ps *gochannel.GoChannel
@@ -277,7 +278,9 @@ func c13Body(r *Run) {
 			// R4: acked => handled successfully or present in the poison topic
 			for _, d := range script.Deliveries {
 				if !d.Settled() {
-					r.Fail("C13.R4", "a message is unsettled at quiescence", "%s", d.Msg.UUID)
+					if !closeInFlight {
+						r.Fail("C13.R4", "a message is unsettled at quiescence", "%s", d.Msg.UUID)
+					}
 					continue
 				}
 				var res *routed
@@ -306,10 +309,23 @@ func c13Body(r *Run) {
 				}
 			}
 		}
-		if len(results) == 0 {
+		if len(results) == 0 && !closeInFlight {
 			r.Fail("C13.R0", "no message was handled", "")
 		}
 	})
+	// a third of the scripted-subscriber runs: the poison publisher is slow and the Router is closed while a poison
+	// publish may be in flight; whatever was accepted by the poison topic must still count as poisoned (acked), not failed
+	if mode == 1 && t.Chance(1, 3) {
+		closeInFlight = true
+		poison.Hook = func(c *PubCall) { time.Sleep(30 * time.Millisecond) }
+		closeAfter := time.Duration(t.Int(70)) * time.Millisecond
+		go func() {
+			<-rig.Router.Running()
+			time.Sleep(closeAfter)
+			r.Fault("router-close-in-flight")
+			rig.Router.Close()
+		}()
+	}
 	rig.Start()
 	if ps != nil {
 		for i := 0; i < 2; i++ {
